@@ -119,14 +119,27 @@ def gen_c07(tier, rng):
     ids = [(z[0], z[1]) for z in zones] + [(i, None) for i in fixed_ids()]
     cases = []
     n = 40 if tier == "quick" else 2500
+    pzones = [gen_zone.named(gen_zone.fixed_name(o)) for o in (-3600, 3600, -30, 30, -86399, 86399)] + [z[0] for z in zones[:8]]
     for zid, data in ids:
         ts = zone_instants(data, rng, 12) if data else [I64_MIN, I64_MIN + 86400 * 2, I64_MAX, I64_MAX - 86400 * 2, 0, -1, 1 << 40, -(1 << 40), 1709251199, -62135596800, 253402300800, -62167219201]
+        # "any_zone": the zone handed to parse() is the formatting zone, UTC (default), or an unrelated one
+        def pz():
+            r = rng.random()
+            if r < 0.4:
+                return ""
+            if r < 0.6:
+                return " " + zid
+            return " " + rng.choice(pzones)
         for _ in range(n):
             f = lossless_format(rng, True if rng.random() < 0.6 else False)
-            cases.append("fp %s %s %d %d" % (zid, hx(f), rng.choice(ts), rng.choice(FS)))
+            cases.append("fp %s %s %d %d%s" % (zid, hx(f), rng.choice(ts), rng.choice(FS), pz()))
         for f in ("%Y-%m-%dT%H:%M:%E*S%E*z", "%Y-%m-%d %H:%M:%S.%E*f %::z", "%s", "%E4Y/%m/%d %H:%M:%E15S %:::z"):
             for t in ts:
-                cases.append("fp %s %s %d %d" % (zid, hx(f), t, rng.choice(FS)))
+                cases.append("fp %s %s %d %d%s" % (zid, hx(f), t, rng.choice(FS), pz()))
+            # the two ends of the range with every kind of parse zone (parse()'s overflow checks consult a zone)
+            for t in (I64_MAX, I64_MIN, I64_MAX - 1, I64_MIN + 1):
+                for p in pzones[:6] + [zid]:
+                    cases.append("fp %s %s %d %d %s" % (zid, hx(f), t, rng.choice(FS), p))
     return cases, zones
 
 
